@@ -2,7 +2,7 @@
    Statements about the reference interpreter Model/Eval.v (proofs in Lemmas/EvalFrame.v, EvalScope.v).
    The interpreter itself is tied to yaql by the correspondence of harness/props/c04.py. *)
 From Coq Require Import List ZArith Bool Arith.
-From YV Require Import Common.Corr Model.Eval Lemmas.EvalFrame Lemmas.EvalScope Lemmas.EvalWf.
+From YV Require Import Common.Corr Model.Eval Lemmas.EvalFrame Lemmas.EvalScope Lemmas.EvalWf Lemmas.EvalPlain.
 Import ListNotations.
 
 (* Inner bindings never leak outward: whatever is evaluated (any expression, any fuel, any state,
@@ -87,6 +87,11 @@ Proof. exact scope_stable. Qed.
 (* the initial state of Statement.evaluate is well-scoped for any plain document *)
 Theorem C04_root_well_scoped : forall d, vok 1 d -> hok (heap (root d)).
 Proof. exact root_hok. Qed.
+
+(* A successful evaluation returns plain data: every lazy sequence anywhere in the result has been pulled and no
+   context object is left (the interpreter's counterpart of C10's statement). *)
+Theorem C04_result_plain : forall fuel data e lg r, run fuel data e = (lg, Ok r) -> plainv r.
+Proof. exact run_plain. Qed.
 
 (* ---- the theorems are about reachable, non-trivial situations ---- *)
 
